@@ -1671,6 +1671,8 @@ archive_entry_set_digest(struct archive_entry *entry, int type,
 struct archive_acl *
 archive_entry_acl(struct archive_entry *entry)
 {
+	/* The caller may change the permission bits through the ACL. */
+	entry->stat_valid = 0;
 	return &entry->acl;
 }
 
@@ -1687,6 +1689,8 @@ int
 archive_entry_acl_add_entry(struct archive_entry *entry,
     int type, int permset, int tag, int id, const char *name)
 {
+	/* user::, group:: and other:: entries are stored in the mode. */
+	entry->stat_valid = 0;
 	return archive_acl_add_entry(&entry->acl, type, permset, tag, id, name);
 }
 
@@ -1697,6 +1701,7 @@ int
 archive_entry_acl_add_entry_w(struct archive_entry *entry,
     int type, int permset, int tag, int id, const wchar_t *name)
 {
+	entry->stat_valid = 0;
 	return archive_acl_add_entry_w_len(&entry->acl,
 	    type, permset, tag, id, name, wcslen(name));
 }
@@ -1779,6 +1784,7 @@ int
 archive_entry_acl_from_text_w(struct archive_entry *entry,
     const wchar_t *wtext, int type)
 {
+	entry->stat_valid = 0;
 	return (archive_acl_from_text_w(&entry->acl, wtext, type));
 }
 
@@ -1786,6 +1792,7 @@ int
 archive_entry_acl_from_text(struct archive_entry *entry,
     const char *text, int type)
 {
+	entry->stat_valid = 0;
 	return (archive_acl_from_text_l(&entry->acl, text, type, NULL));
 }
 
@@ -1793,6 +1800,7 @@ int
 _archive_entry_acl_from_text_l(struct archive_entry *entry, const char *text,
     int type, struct archive_string_conv *sc)
 {
+	entry->stat_valid = 0;
 	return (archive_acl_from_text_l(&entry->acl, text, type, sc));
 }
 
